@@ -582,8 +582,8 @@ func (c *connection) waitFlush() (err error) {
 		for {
 			vp(vpWaitWrite, unsafe.Pointer(c), 0, 0)
 			err = <-c.writeTrigger
-			if !c.staleFlushSignal(err) {
-				return err
+			if stale, serr := c.staleFlushSignal(err); !stale {
+				return serr
 			}
 		}
 	}
@@ -599,21 +599,22 @@ func (c *connection) waitFlush() (err error) {
 		vp(vpWaitWriteT, unsafe.Pointer(c), 0, 0)
 		select {
 		case err = <-c.writeTrigger:
-			if c.staleFlushSignal(err) {
+			stale, serr := c.staleFlushSignal(err)
+			if stale {
 				continue
 			}
 			if !c.writeTimer.Stop() { // clean timer
 				vp(vpTimerDrainW, unsafe.Pointer(c), 0, 0)
 				<-c.writeTimer.C
 			}
-			return err
+			return serr
 		case <-c.writeTimer.C:
 			vp(vpWaitWriteT2, unsafe.Pointer(c), 0, 0)
 			select {
 			// try fetch writeTrigger if both cases fires
 			case err = <-c.writeTrigger:
-				if !c.staleFlushSignal(err) {
-					return err
+				if stale, serr := c.staleFlushSignal(err); !stale {
+					return serr
 				}
 			default:
 			}
@@ -628,8 +629,17 @@ func (c *connection) waitFlush() (err error) {
 // staleFlushSignal reports whether a nil write signal is a leftover of an earlier flush that timed out:
 // the poller may finish draining that flush's data and signal after the timeout was reported, and the
 // signal then sits in writeTrigger. A flush is complete only when nothing is left in the output buffer.
-func (c *connection) staleFlushSignal(err error) bool {
-	return err == nil && !c.outputBuffer.IsEmpty()
+// The poller dropped the write interest right before it sent that signal (rw2r), possibly after this
+// flush had registered its own, so it is registered again (or nobody would ever send the rest).
+// Otherwise the signal is what the waiting flush returns.
+func (c *connection) staleFlushSignal(err error) (stale bool, _ error) {
+	if err != nil || c.outputBuffer.IsEmpty() {
+		return false, err
+	}
+	if err = c.operator.Control(PollR2RW); err != nil {
+		return false, Exception(err, "when flush")
+	}
+	return true, nil
 }
 
 func (c *connection) getState() connState {
